@@ -259,8 +259,10 @@ class MaskCombinator(Generic[R], GenerativeFunction[Mask[R]]):
             MaskTrace.build(self, premasked_trace, post_check),
             final_weight,
             Mask.build(retdiff, check_diff),
+            # The discarded choices belong to the previous trace: they are valid whenever the
+            # previous flag was True, also when the new flag is False.
             Update(
-                inner_chm.mask(post_check),
+                inner_chm.mask(pre_check),
             ),
         )
 
